@@ -88,14 +88,13 @@ func lifeBinary(c *Ctx, scenario string) {
 		if err != nil {
 			return "BUILD-FAILED " + strings.ReplaceAll(err.Error(), "\n", " ")[:120]
 		}
-		hp := freePort()
-		pc, _ := net.ListenUDP("udp", &net.UDPAddr{IP: net.IPv4(127, 0, 0, 1)})
-		up := pc.LocalAddr().(*net.UDPAddr).Port
-		pc.Close()
+		// ports outside the ephemeral range: nothing else on the machine takes them between this choice and the bind
+		hp := privatePort()
+		up := privatePort()
 		dir, _ := os.MkdirTemp("", "verif-cfg-")
 		defer os.RemoveAll(dir)
 		cfgPath := filepath.Join(dir, "chihaya.yaml")
-		mp := freePort()
+		mp := privatePort()
 		_ = os.WriteFile(cfgPath, []byte(binConfig(scenario, hp, up, mp)), 0o600)
 		var logs bytes.Buffer
 		cmd := exec.Command(bin, "--config", cfgPath, "--nocolors")
